@@ -419,7 +419,37 @@ def rule_R2(body):
     return body, n
 
 
-RULES = {"R1": rule_R1, "R2": rule_R2, "R4": rule_R4, "R7": rule_R7, "R8": rule_R8}
+def rule_R11(body):
+    """match arm `P1 | P2 if G => E,` (one line) => two arms `P1 if G => E,` `P2 if G => E,` (Verus rejects or-pattern + guard)"""
+    pat = re.compile(r"(?m)^([ \t]*)(\w+) \| (\w+) if ([^=\n]+(?:==[^=\n]+)?) => ([^\n]*),[ \t]*$")
+    n = 0
+    while True:
+        m = pat.search(body)
+        if not m:
+            break
+        ind, p1, p2, g, e = m.groups()
+        new = "%s%s if %s => %s,\n%s%s if %s => %s," % (ind, p1, g, e, ind, p2, g, e)
+        body = body[:m.start()] + new + body[m.end():]
+        n += 1
+    return body, n
+
+
+def rule_R9(body):
+    """X.get(I).map(|m| B).unwrap_or(D)  =>  (match X.get(I) { Some(m) => B, None => D })   (beta-reduction of Option::map / unwrap_or)"""
+    pat = re.compile(r"(\w+)\s*\.get\(([^()]*)\)\s*\.map\(\|(\w+)\| ([^()|]*)\)\s*\.unwrap_or\((\w+)\)")
+    n = 0
+    while True:
+        m = pat.search(body)
+        if not m:
+            break
+        x, i, v, b, d = m.groups()
+        new = "(match %s.get(%s) { Some(%s) => %s, None => %s })" % (x, i, v, b, d)
+        body = body[:m.start()] + new + body[m.end():]
+        n += 1
+    return body, n
+
+
+RULES = {"R9": rule_R9, "R11": rule_R11, "R1": rule_R1, "R2": rule_R2, "R4": rule_R4, "R7": rule_R7, "R8": rule_R8}
 
 
 def match_brace(text, ob):
